@@ -168,6 +168,28 @@ def expectG (cfg : Cfg) (st : St) (vs : Vers) (k : Nat) (path : String) : String
     | none => "?version"
     | some (tid, _) => s!"+{tid}|{bytesToString rpc}|g{k}|n{k}|s{k}|{hdrOf cfg tid}|-"
 
+/-! direct lookups on the `Router` interface the bridges consume (`ReflectionRouter.RouteGRPC / RouteHTTP`): the route DATA
+    handed out must be that of the latest description (C06: "the returned route data comes from the latest description") -/
+
+def bodyLetter (b : String) : String := if b == "*" || b == "-" then b else if b == "sub" then "s" else "?"
+
+/-- mirror of `service.digest` in harness/stack/contract.go -/
+def SService.digest (s : SService) : String :=
+  s.name ++ ":" ++ ";".intercalate (s.methods.map fun m =>
+    m.name ++ "." ++ m.kind ++ "." ++ String.join (m.bindings.map (bodyLetter ·.body)))
+
+/-- direct `RouteGRPC`: owner's router name and the data of `route.Service` -/
+def expectDG (st : St) (vs : Vers) (path : String) : String :=
+  match C14.routeGRPC st.present st.svc.routes (some (ascii path)) with
+  | .status c => s!"-{c}"
+  | .ok t v i _ =>
+    match vs.get v with
+    | none => "?version"
+    | some (_, c) =>
+      match c[i]? with
+      | none => "?svc"
+      | some s => s!"+{bytesToString t}|{s.digest}"
+
 def subOf (bindBody probeBody sent : String) : Option String :=
   if bindBody == "-" || probeBody == "-" then some "-"
   else if bindBody == probeBody then some sent
@@ -180,11 +202,13 @@ structure Hit where
   bindBody : String
   id : String
   nested : String
+  name : String      -- router name of the answering target
+  kind : String      -- streaming kind of the matched method
 
 def lookupHit (st : St) (vs : Vers) (hm path : String) : Except String (Option Hit) :=
   match C06.routeHTTP st.present evalStack st.pat.static (ascii hm) (ascii path) with
   | .status c => if c = codeNotFound then .ok none else .error (httpCode c)
-  | .found _ v r =>
+  | .found n v r =>
     match vs.get v with
     | none => .error "?version"
     | some (tid, c) =>
@@ -198,7 +222,7 @@ def lookupHit (st : St) (vs : Vers) (hm path : String) : Except String (Option H
             | none => "*"
             | some bi => match m.bindings[bi]? with | some b => b.body | none => "?"
           .ok (some ⟨tid, rpcNameOf s.name m.name, m.cs, body,
-            capture (ascii path) r "id", capture (ascii path) r "nested.name"⟩)
+            capture (ascii path) r "id", capture (ascii path) r "nested.name", bytesToString n, m.kind⟩)
 
 /-- an H probe's body selector: "*j" / "*k" = body "*" with Content-Type application/json / application/x-stk+json -/
 def bodyKind (b : String) : String × String :=
@@ -220,6 +244,15 @@ def expectH (cfg : Cfg) (st : St) (vs : Vers) (k : Nat) (hm path body : String) 
       | some sub =>
         let enc := if ct == "json" then "json" else if ct == "stk" then "stk" else if cfg.opt then "stk" else "json"
         s!"+{h.tid}|{h.rpc}|{tok h.id}|{tok h.nested}|{sub}|{hdrOf cfg h.tid}|{enc}"
+
+/-- direct `RouteHTTP`: owner's router name, `route.Method` (name, streaming kind) and `route.Binding` (body mapping) -/
+def expectDH (st : St) (vs : Vers) (hm path : String) : String :=
+  match lookupHit st vs hm path with
+  | .error e => if e.startsWith "-4" || e.startsWith "-5" then
+      (match C06.routeHTTP st.present evalStack st.pat.static (ascii hm) (ascii path) with
+        | .status c => s!"-{c}" | _ => e) else e
+  | .ok none => s!"-{codeNotFound}"
+  | .ok (some h) => s!"+{h.name}|{h.rpc}|{h.kind}|{bodyLetter h.bindBody}"
 
 /-- transcoded WebSocket entry (GET upgrade; one request frame is always sent) -/
 def expectW (cfg : Cfg) (st : St) (vs : Vers) (k : Nat) (path body : String) : String :=
@@ -265,8 +298,19 @@ inductive Judgement
   | viol (clause : String)
   | diff (why : String)
 
+/-- direct router lookups (`impl` ≠ `model`) -/
+def classifyDirect (impl model : String) : Judgement :=
+  match parseRec impl, parseRec model with
+  | some r, some m =>
+    if r.tid == m.tid then .viol "route-data-not-from-the-latest-description"
+    else .viol s!"wrong-claimant:earliest-live-claimant-is-{m.tid},router-answers-{r.tid}"
+  | some r, none => .viol s!"dropped-route-still-handed-out-by-the-router:{r.tid}"
+  | none, some m => .viol s!"settled-contract-not-routable:{m.tid}"
+  | none, none => .viol s!"wrong-status:impl={impl},spec={model}"
+
 /-- `impl` ≠ `model` is assumed by the caller -/
 def classify (live : List Inst) (kind hm path impl model prevModel : String) : Judgement :=
+  if kind == "D" then classifyDirect impl model else
   if impl.startsWith "!" then .viol s!"protocol-surprise:{impl}"
   else
     let cands := candidates live kind hm path
